@@ -59,6 +59,7 @@ func init() {
 		"regexp.MustCompile":               inRegexpMustCompile,
 		"(*regexp.Regexp).FindStringSubmatch": inFindStringSubmatch,
 		"time.Parse":                       inTimeParse,
+		"time.Unix":                        inTimeUnix,
 		"(time.Time).Format":               inTimeFormat,
 		"(time.Time).UTC":                  inTimeUTC,
 		"(time.Time).Before":               inTimeBefore,
@@ -876,6 +877,13 @@ func inTimeIsZero(fr *frame, args []value) value {
 		return nt.IsZero()
 	}
 	return false
+}
+
+func inTimeUnix(fr *frame, args []value) value {
+	if isSym(args[0]) || isSym(args[1]) {
+		panic(engineErr("time.Unix of symbolic arguments"))
+	}
+	return fr.i.boxTime(time.Unix(asInt64(args[0]), asInt64(args[1])))
 }
 
 func inTimeParse(fr *frame, args []value) value {
